@@ -239,7 +239,7 @@ def run(chk) -> None:
                      "root": str(scratch_root() / f"c11-{i}")})
     # token floods long enough that one tree-sitter parse of the file takes a second or more: slow inputs must still
     # be analysed (findings of the healthy part kept), and the healthy file linted after them keeps its findings
-    sjobs = [{"seed": lang, "token": tok, "n": n, "root": str(scratch_root() / f"c11-slow-{lang}-{tok}")}
+    sjobs = [{"seed": lang, "token": tok, "n": n, "root": str(scratch_root() / f"c11-slow-{lang}-{tok}-{n}")}
              for lang in ("typescript", "javascript")
              for tok, n in ((("quote", 10000),) if quick else (("quote", 10000), ("backtick", 10000), ("quote", 16000)))]
     log(f"C11: {len(jobs)} damaged files")
